@@ -160,6 +160,24 @@ def m_refine_pow_abs(case, v):
     return False
 
 
+def m_pow_reciprocal_base_rewrite(case, v):
+    """KF-C35-03: rebuilding a stored power ((b**-1)**e, e not an integer, kept by Mul::power_num) through pow() applies
+    pow()'s rewrite (b**-1)**e -> b**(-e) (pow.cpp), which changes the value for b on the negative real axis"""
+    dt = v.detail or {}
+    d = dt.get("dump")
+    if not d:
+        return False
+    for b, k, n in _nested_pows(d, []):
+        if k == ["Integer", "-1"] and not n[0] == "Integer":
+            try:
+                _, qv = ar.reduce(b, ar.split_env(dt["assign"])[0])
+            except ar.Undefined:
+                continue
+            if qv is None or (qv.im == 0 and qv.re < 0):
+                return True
+    return False
+
+
 def _complex_const_add(d):
     return d[0] == "Add" and d[1][0] in ("Complex", "ComplexDouble")
 
@@ -349,7 +367,7 @@ class C35(ValueCheck):
         return ok, (repr(vg) if kg == "q" else mpmath_str(vg))
 
 
-C35.matchers = {"refine_pow_abs": m_refine_pow_abs, "refine_positive_complex_constant": m_refine_positive_complex_constant}
+C35.matchers = {"refine_pow_abs": m_refine_pow_abs, "pow_reciprocal_base_rewrite": m_pow_reciprocal_base_rewrite, "refine_positive_complex_constant": m_refine_positive_complex_constant}
 
 if __name__ == "__main__":
     sys.exit(engine.main(C35))
